@@ -3,7 +3,7 @@ package main
 // Which harnesses decide which property, with which bounds, per tier.
 
 var c01ids = []string{"no-panic", "string-no-marker", "gostring-no-marker", "json-no-marker", "terminates-within-budget"}
-var c10ids = []string{"parse-xor", "validates", "shape", "render-xor", "param-error-empty"}
+var c10ids = []string{"parse-xor", "validates", "shape", "render-xor", "param-error-empty", "topostgres-xor", "toparam-error-empty", "toparam-xor", "rejected-by-all"}
 
 func withOnly(rs []hrun, only []string, panics bool) []hrun {
 	out := make([]hrun, len(rs))
@@ -15,7 +15,7 @@ func withOnly(rs []hrun, only []string, panics bool) []hrun {
 	return out
 }
 
-const nContexts = 27
+const nContexts = 32
 
 func ctxRuns(thorough bool) []hrun {
 	var r []hrun
@@ -48,6 +48,11 @@ func deriveRuns(thorough bool) []hrun {
 		for k := 1; k <= maxK; k++ {
 			r = append(r, hrun{Harness: "DeriveTokens", Params: P("K", k, "DF", df)})
 		}
+		for te := 1; te <= 3; te++ { // an unterminated phrase / regexp after K complete tokens
+			for k := 0; k <= 2; k++ {
+				r = append(r, hrun{Harness: "DeriveTokens", Params: P("K", k, "DF", df, "TAILERR", te)})
+			}
+		}
 		for c := 0; c < nContexts; c++ {
 			if c == 21 || c == 22 {
 				if thorough {
@@ -72,7 +77,7 @@ var c03ids = []string{"fragment-renders", "sql-means-query", "inline-numbers-are
 var c04ids = []string{"inline-ok-implies-param-ok", "param-count", "param-no-inline-values", "param-values-in-order", "param-substitution-equals-inline",
 	"param-means-inline", "same-outcome-for-same-kinds", "sql-text-independent-of-values", "param-count-independent-of-values", "value-param-confined", "value-param-equals-inline-constant"}
 
-const nSQLForms = 34
+const nSQLForms = 41
 
 func sqlRuns(thorough bool, concrete int) []hrun {
 	var r []hrun
@@ -155,6 +160,9 @@ func parseRuns(thorough bool) []hrun {
 		for k := 1; k <= maxK; k++ {
 			r = append(r, hrun{Harness: "ParseTokens", Params: P("K", k, "DF", df, "WIDE", 0), Panics: true})
 		}
+		if !thorough { // three tokens over one representative per token kind
+			r = append(r, hrun{Harness: "ParseTokens", Params: P("K", 3, "DF", df, "WIDE", 0, "SHAPES", 1), Panics: true})
+		}
 	}
 	return r
 }
@@ -215,8 +223,8 @@ var props = map[string]propCfg{
 		Outside:  "longer sequences; literal contents outside the narrow shape classes (typed values of arbitrary words are covered by C08 and the K=1 wide slot of C01)",
 	},
 	"C07": {
-		Quick:    []hrun{{Harness: "TreeJuxtapose", Params: P("D", 2, "LEAVES", 0), InfoOnly: []string{"juxt-accepted"}}, {Harness: "TreeJuxtapose", Params: P("D", 1, "LEAVES", 1), InfoOnly: []string{"juxt-accepted"}}, {Harness: "TreeJuxtapose", Params: P("D", 3, "LEAVES", 3, "OPS", 1), InfoOnly: []string{"juxt-accepted"}}, {Harness: "TreeJuxtapose", Params: P("D", 2, "LEAVES", 0, "OPS", 3), InfoOnly: []string{"juxt-accepted"}}},
-		Thorough: []hrun{{Harness: "TreeJuxtapose", Params: P("D", 2, "LEAVES", 0), InfoOnly: []string{"juxt-accepted"}}, {Harness: "TreeJuxtapose", Params: P("D", 1, "LEAVES", 1), InfoOnly: []string{"juxt-accepted"}}, {Harness: "TreeJuxtapose", Params: P("D", 3, "LEAVES", 3, "OPS", 1), InfoOnly: []string{"juxt-accepted"}}, {Harness: "TreeJuxtapose", Params: P("D", 3, "LEAVES", 3, "OPS", 2), InfoOnly: []string{"juxt-accepted"}}, {Harness: "TreeJuxtapose", Params: P("D", 2, "LEAVES", 2), InfoOnly: []string{"juxt-accepted"}}},
+		Quick:    []hrun{{Harness: "TreeJuxtapose", Params: P("D", 2, "LEAVES", 0), InfoOnly: []string{"juxt-accepted"}}, {Harness: "TreeJuxtapose", Params: P("D", 1, "LEAVES", 1), InfoOnly: []string{"juxt-accepted"}}, {Harness: "TreeJuxtapose", Params: P("D", 3, "LEAVES", 3, "OPS", 1), InfoOnly: []string{"juxt-accepted"}}, {Harness: "TreeJuxtapose", Params: P("D", 2, "LEAVES", 0, "OPS", 3), InfoOnly: []string{"juxt-accepted"}}, {Harness: "TreeJuxtapose", Params: P("D", 2, "LEAVES", 9, "OPS", 2), InfoOnly: []string{"juxt-accepted"}}, {Harness: "TreeJuxtapose", Params: P("D", 2, "LEAVES", 10, "OPS", 2), InfoOnly: []string{"juxt-accepted"}}},
+		Thorough: []hrun{{Harness: "TreeJuxtapose", Params: P("D", 2, "LEAVES", 0), InfoOnly: []string{"juxt-accepted"}}, {Harness: "TreeJuxtapose", Params: P("D", 1, "LEAVES", 1), InfoOnly: []string{"juxt-accepted"}}, {Harness: "TreeJuxtapose", Params: P("D", 3, "LEAVES", 3, "OPS", 1), InfoOnly: []string{"juxt-accepted"}}, {Harness: "TreeJuxtapose", Params: P("D", 3, "LEAVES", 3, "OPS", 2), InfoOnly: []string{"juxt-accepted"}}, {Harness: "TreeJuxtapose", Params: P("D", 2, "LEAVES", 2), InfoOnly: []string{"juxt-accepted"}}, {Harness: "TreeJuxtapose", Params: P("D", 2, "LEAVES", 9, "OPS", 2), InfoOnly: []string{"juxt-accepted"}}, {Harness: "TreeJuxtapose", Params: P("D", 2, "LEAVES", 10, "OPS", 2), InfoOnly: []string{"juxt-accepted"}}},
 		Bounds:   "all trees as in C05 that contain an AND node, each AND node in turn written as juxtaposition; both texts parsed by the real parser",
 		Outside:  "several gaps at once; deeper trees; a juxtaposition the parser rejects is informational (eligibility is defined by the parser accepting the text)",
 	},
@@ -226,6 +234,7 @@ var props = map[string]propCfg{
 			{Harness: "TreeLayout", Params: P("D", 2, "LEAVES", 0, "VARIANT", 0)}, {Harness: "TreeLayout", Params: P("D", 2, "LEAVES", 0, "VARIANT", 1)},
 			{Harness: "TreeLayout", Params: P("D", 1, "LEAVES", 1, "VARIANT", 3)}, {Harness: "TreeLayout", Params: P("D", 1, "LEAVES", 1, "VARIANT", 4)},
 			{Harness: "TreeLayout", Params: P("D", 1, "LEAVES", 1, "VARIANT", 2, "DF", 1)},
+			{Harness: "TreeLayout", Params: P("D", 1, "LEAVES", 2, "VARIANT", 5)}, {Harness: "TreeLayout", Params: P("D", 1, "LEAVES", 1, "VARIANT", 6)},
 			{Harness: "LayoutTokens", Params: P("K", 2, "DF", 0)}, {Harness: "LayoutTokens", Params: P("K", 3, "DF", 0, "SHAPES", 1)},
 		},
 		Thorough: []hrun{
@@ -234,8 +243,9 @@ var props = map[string]propCfg{
 			{Harness: "LayoutTokens", Params: P("K", 2, "DF", 0)}, {Harness: "LayoutTokens", Params: P("K", 2, "DF", 1)}, {Harness: "LayoutTokens", Params: P("K", 3, "DF", 0)}, {Harness: "LayoutTokens", Params: P("K", 4, "DF", 0, "SHAPES", 1)},
 			{Harness: "TreeLayout", Params: P("D", 1, "LEAVES", 1, "VARIANT", 0)}, {Harness: "TreeLayout", Params: P("D", 1, "LEAVES", 1, "VARIANT", 1)}, {Harness: "TreeLayout", Params: P("D", 1, "LEAVES", 1, "VARIANT", 2)},
 			{Harness: "TreeLayout", Params: P("D", 2, "LEAVES", 0, "VARIANT", 0)}, {Harness: "TreeLayout", Params: P("D", 2, "LEAVES", 0, "VARIANT", 1)}, {Harness: "TreeLayout", Params: P("D", 2, "LEAVES", 0, "VARIANT", 2)},
+			{Harness: "TreeLayout", Params: P("D", 1, "LEAVES", 1, "VARIANT", 5)}, {Harness: "TreeLayout", Params: P("D", 2, "LEAVES", 0, "VARIANT", 5)}, {Harness: "TreeLayout", Params: P("D", 1, "LEAVES", 1, "VARIANT", 6)}, {Harness: "TreeLayout", Params: P("D", 2, "LEAVES", 0, "VARIANT", 6)},
 		},
-		Bounds:  "trees as in C05; variants: every gap widened to space+tab plus leading/trailing white space, lower/mixed-case keywords, one redundant pair of parentheses around any one node",
+		Bounds:  "trees as in C05; variants: every gap widened to space+tab plus leading/trailing white space, every gap written as a lone tab, LF, CR or CR LF (also leading and trailing), lower/mixed-case keywords, one redundant pair of parentheses around any one node, around every field value, around the number after ~ and ^",
 		Outside: "white space characters other than space, tab, CR, LF; whitespace inside quoted phrases",
 	},
 	"C11": {
@@ -246,8 +256,10 @@ var props = map[string]propCfg{
 			{Harness: "TreeDefaultField", Params: P("D", 3, "LEAVES", 6, "OPS", 1, "DFKIND", 0)},
 			{Harness: "TreeDefaultField", Params: P("D", 1, "LEAVES", 7, "DFKIND", 0, "VARIANT", 2)},
 			{Harness: "TreeDefaultField", Params: P("D", 1, "LEAVES", 1, "DFKIND", 2)}, {Harness: "TreeDefaultField", Params: P("D", 1, "LEAVES", 1, "DFKIND", 3)},
+			{Harness: "GroupDefaultField", Params: P("GD", 1)}, {Harness: "GroupDefaultField", Params: P("GD", 2, "GFORMS", 1)}, {Harness: "GroupDefaultField", Params: P("GD", 3, "GFORMS", 1)},
 		},
 		Thorough: []hrun{
+			{Harness: "GroupDefaultField", Params: P("GD", 1)}, {Harness: "GroupDefaultField", Params: P("GD", 2)}, {Harness: "GroupDefaultField", Params: P("GD", 3, "GFORMS", 1)},
 			{Harness: "TreeDefaultField", Params: P("D", 1, "LEAVES", 7, "DFKIND", 0, "VARIANT", 2)}, {Harness: "TreeDefaultField", Params: P("D", 2, "LEAVES", 0, "DFKIND", 0, "VARIANT", 2)},
 			{Harness: "TreeDefaultField", Params: P("D", 1, "LEAVES", 1, "DFKIND", 2)}, {Harness: "TreeDefaultField", Params: P("D", 1, "LEAVES", 1, "DFKIND", 3)},
 			{Harness: "TreeDefaultField", Params: P("D", 3, "LEAVES", 6, "OPS", 1, "DFKIND", 0)}, {Harness: "TreeDefaultField", Params: P("D", 3, "LEAVES", 6, "OPS", 2, "DFKIND", 0)},
